@@ -23,6 +23,12 @@ type AStack stackage.Stack // alias without a String method
 type WStack stackage.Stack // alias with the README's wrapper String method
 func (r WStack) String() string { return stackage.Stack(r).String() }
 
+type XStack stackage.Stack // alias whose own String method returns unrelated text
+func (r XStack) String() string { return "<<custom stack stringer>>" }
+
+type XCond stackage.Condition
+func (r XCond) String() string { return "<<custom condition stringer>>" }
+
 type ACond stackage.Condition
 type WCond stackage.Condition
 func (r WCond) String() string { return stackage.Condition(r).String() }
@@ -59,9 +65,9 @@ func Proj(x any) string {
 		return tv
 	case stackage.Stack:
 		return "S"
-	case AStack, WStack:
+	case AStack, WStack, XStack:
 		return "A"
-	case *AStack, *WStack:
+	case *AStack, *WStack, *XStack:
 		return "P"
 	case stackage.Condition:
 		return "C"
